@@ -120,7 +120,11 @@ var c18GoroutineRe = regexp.MustCompile(`(?s)goroutine \d+ \[chan send[^\]]*\]:\
 // (a consumer that handles an error or a record slowly); a producer that gives up waiting
 // for the consumer shows up as a missing Done / a wrong trace.
 func c18Run(c *core.Ctx, in c18Input, policy string, r *rand.Rand, slowAfter time.Duration) (trace []string, pattern string, verdict string) {
-	p := parser.NewParser(in.config())
+	return c18RunWith(c, parser.NewParser(in.config()), in, policy, r, slowAfter)
+}
+
+// c18RunWith: the same with a parser value the caller made (and may have used before).
+func c18RunWith(c *core.Ctx, p parser.Parser, in c18Input, policy string, r *rand.Rand, slowAfter time.Duration) (trace []string, pattern string, verdict string) {
 	exited := make(chan struct{})
 	readerJitter := r.Intn(3)
 	consumerJitter := r.Intn(4)
@@ -461,6 +465,50 @@ func runC18(c *core.Ctx) {
 			})
 		}
 		runtime.GOMAXPROCS(16)
+		// one parser value for several inputs in turn, each drained until Done: every parse observes what the callback
+		// parser reports for that input (a parser is not used up by a parse)
+		{
+			var reusable []c18Input
+			for _, in := range ins {
+				if in.file == "" && !in.fifo && in.skip == 0 && in.comment == 0 && (in.class == "valid" || in.class == "malformed" || in.class == "empty" || in.class == "failing-reader") {
+					reusable = append(reusable, in)
+				}
+			}
+			nseq := c.N(60, 600)
+			core.ParallelFor(nseq, 8, func(w, si int) {
+				r := c.Rng("reuse", si)
+				if len(reusable) == 0 {
+					return
+				}
+				p := parser.NewParser(parser.NewDefaultConfig())
+				for step := 0; step < 2+r.Intn(4); step++ {
+					in := reusable[r.Intn(len(reusable))]
+					c.Crumb(w, fmt.Sprintf("reuse sequence %d step %d class %s", si, step, in.class))
+					nodes, firstErr, _ := c18Reference(in)
+					trace, pattern, verdict := c18RunWith(c, p, in, "B", r, 0)
+					c.Eval(1)
+					c.Count("runs_on_a_reused_parser", 1)
+					var want []string
+					for _, nd := range nodes {
+						want = append(want, "node("+nd+")")
+					}
+					if firstErr != "" {
+						want = append(want, "err("+firstErr+")")
+					}
+					want = append(want, "done", "exited")
+					c.Nontrivial("reuse", in.text, fmt.Sprint(si, step), pattern)
+					if verdict == "watchdog" {
+						c.Inconclusive("l3-traces", fmt.Sprintf("watchdog on reuse sequence %d step %d", si, step))
+						return
+					}
+					if verdict != "" || strings.Join(trace, "\n") != strings.Join(want, "\n") {
+						c.Violation("ParseStream on a reused parser|trace-mismatch", fmt.Sprintf("step %d of a sequence on one parser value (%s input, %s): observed %v, want %v", step, in.class, verdict, clipList(trace), clipList(want)),
+							map[string]any{"sequence": si, "step": step, "input_class": in.class, "input": clip(in.text, 3000), "reader_fails_at": in.limit, "expected_trace": want, "observed_trace": trace, "verdict": verdict})
+						return
+					}
+				}
+			})
+		}
 		// slow consumers: a few inputs of every class, pauses of 150 ms / 1.2 s / 2.5 s after each event
 		byClass := map[string][]c18Input{}
 		for _, in := range ins {
@@ -602,6 +650,38 @@ func c18CommandGoroutines(c *core.Ctx) {
 			if !okMsgs || (t != "" && res.Exit == 0) {
 				c.Violation("lint|problems-lost-before-unreadable-input", fmt.Sprintf("three malformed lines followed by %s: lint prints %d lines %q, exit %d", what, len(msgs), clip(res.Out, 200), res.Exit),
 					caseDoc{Files: map[string]string{"badlong.yaml": clip(text, 300)}, Args: []string{"--no-color", "lint", "badlong.yaml"}, Note: "followed by " + what, Observed: map[string]any{"stdout": clip(res.Out, 600), "exit": res.Exit, "err": clip(res.Err, 200)}})
+			}
+		}
+	}
+	// a terminal that takes no output for a while (stopped with XOFF, a slow remote session) as standard output, a log
+	// whose malformed line comes after many records: the records before the error are shown, all of them, as through a
+	// pipe - however far the reading side ran ahead of the writing side
+	if c.HR != "" {
+		var sb strings.Builder
+		sb.WriteString("2021/01/01:\n  first: 1\n")
+		for k := 0; k < 70; k++ {
+			fmt.Fprintf(&sb, "2021/02/%02d:\n  %s %d: %d\n", 1+k%28, strings.Repeat("long name ", 9), k, k+1)
+		}
+		sb.WriteString("  - broken\n2021/03/01:\n  after: 1\n")
+		dir := filepath.Join(c.Work, "stalled")
+		run.WriteFiles(dir, map[string]string{"log.yaml": sb.String(), "food.yaml": book})
+		for _, cmd := range [][]string{{"print"}, {"csv", "log"}, {"reg"}} {
+			args := append([]string{"--no-color", "-d", "food.yaml", "-l", "log.yaml"}, cmd...)
+			ref := run.Exec(c.HR, args, run.ExecOpts{Dir: dir})
+			for round := 0; round < 6; round++ {
+				res, ok := run.ExecPtyStalled(c.HR, args, run.ExecOpts{Dir: dir}, 150*time.Millisecond)
+				if !ok {
+					c.Inconclusive("stalled-terminal", "no pseudo-terminal available")
+					break
+				}
+				c.Eval(1)
+				c.Count("runs_on_a_stalled_terminal", 1)
+				c.Nontrivial("stalled", joinArgs(cmd), fmt.Sprint(round))
+				if res.Out != ref.Out || (res.Exit == 0) != (ref.Exit == 0) {
+					c.Violation(strings.Join(cmd, " ")+"|stalled-terminal-changes-the-report", fmt.Sprintf("%s on a log whose 72nd record is malformed, stdout a terminal that is not read for 150 ms: exit %d and %d bytes of report; through a pipe exit %d and %d bytes", joinArgs(cmd), res.Exit, len(res.Out), ref.Exit, len(ref.Out)),
+						caseDoc{Files: map[string]string{"log.yaml": sb.String(), "food.yaml": book}, Args: args, Note: "stdout is a pseudo-terminal whose master side is read only after 150 ms", Expected: resDoc(ref), Observed: resDoc(res)})
+					break
+				}
 			}
 		}
 	}
